@@ -15,7 +15,9 @@ from harness.core import Ctx
 RULE = ("pairs of quantities built from a random unit AST (1-3 factors prefix*unit^exp over all linear table units; the "
         "right operand is, by choice, a same-dimension variant with other prefixes/units, the same units, the inverse or "
         "an unrelated one) x value grid (either sign, zero where meaningful, arrays) x optional errors; operations + - * / "
-        "neg, ** (int / pair / float, n/d with d<=6), with a plain number on either side; non-trivial = both operands carry "
+        "neg, ** (int / pair / float, n/d with d<=6), with a plain number on either side; a op a on one object; constructors with "
+        "cancelling units; ndarray magnitudes of int64/int32/int16/uint8/float32/float64 with units as dict/BaseUnits/dimension "
+        "list/none/text, powers and products leaving the integer range, caller's array modified after construction; non-trivial = both operands carry "
         "units and differ in units, or a non-integer exponent, or a result whose dimensions vanish; distinct = canonical JSON")
 ASSUMPTIONS = [
     "units: all table units whose definition is not a temperature/logarithmic rule class (those belong to C05); the angle "
@@ -86,7 +88,11 @@ def env_rows(unitids):
 
 # ---------------------------------------------------------------- generators
 VALUES = [1.0, -1.0, 2.0, 0.5, -3.0, 3.5, 1e3, -2.5e-3, math.pi, 12.0, 7.0, 0.0, 1e-6, -4.0e4]
-ARRAYS = [[1.0, 2.0, 3.0], [-1.5, 2.0, 4.0], [0.25, 8.0], [5.0, -6.0, 7.0, 0.5]]
+ARRAYS = [[1.0, 2.0, 3.0], [-1.5, 2.0, 4.0], [0.25, 8.0], [5.0, -6.0, 7.0, 0.5], [0.0, 1.0, -2.0]]
+# ndarray magnitudes of other dtypes (values exactly representable): (dtype, values)
+TYPED_ARRAYS = [("int64", [1000, 2, 30]), ("int64", [4000000000, 5, 6]), ("int64", [3, 4]), ("int32", [1, 2, 3]),
+                ("int32", [-7, 11, 20000]), ("int16", [300, -2]), ("uint8", [200, 3, 100]), ("float32", [0.5, 1.25, 3.0]),
+                ("float64", [2.5, -4.0, 1000.0]), ("int64", [1000000, 3000000])]
 EXPS = [(1, 1)] * 6 + [(2, 1), (-1, 1), (-2, 1), (3, 1), (-3, 1), (1, 2), (-1, 2), (3, 2), (2, 3), (1, 3)]
 
 
@@ -142,6 +148,8 @@ def gen_value(rng, positive=False, nonzero=False, arrays=True):
         v = list(rng.choice(ARRAYS))
         if positive:
             v = [abs(x) for x in v]
+        if nonzero or positive:
+            v = [x if x != 0 else 1.5 for x in v]
         return v
     while True:
         v = rng.choice(VALUES)
@@ -175,13 +183,31 @@ def text_of(us):
     return "*".join(parts)
 
 
-def build(rng_mode, v, err, us):
-    """Build a real Quantity; `rng_mode` 'dict' or 'text'. Returns (quantity, how)."""
-    from scinumtools.units import Quantity
+def build(rng_mode, v, err, us, form=None, dtype=None, keep=None):
+    """Build a real Quantity; `rng_mode` 'dict' or 'text'. Returns (quantity, how).
+    form: how the units are handed over (dict | baseunits | dimlist | none | text); dtype: the magnitude is an
+    ndarray of that dtype (the caller's array is appended to `keep`)."""
+    from scinumtools.units import Quantity, BaseUnits
     import numpy as np
     val = list(v) if isinstance(v, list) else v
+    if dtype is not None:
+        val = np.array(v, dtype=dtype)
+        if keep is not None:
+            keep.append(val)
     if us is None:
         return Quantity(val, abse=err), "number"
+    if form in ("baseunits", "dimlist", "none"):
+        d = {uid(*f): (e[0] if e[1] == 1 else (e[0], e[1])) for f, e in us}
+        if form == "none" and not us:
+            return Quantity(val, abse=err), "none"
+        if form == "dimlist" and us and all(p == "" and sname in DIMS for (p, sname), _ in us):
+            lst = [0] * 8
+            for (p, sname), e in us:
+                lst[DIMS.index(sname)] = e[0] if e[1] == 1 else (e[0], e[1])
+            return Quantity(val, lst, abse=err), "dimlist"
+        return Quantity(val, BaseUnits(d), abse=err), "baseunits"
+    if form == "text":
+        rng_mode = "text"
     if rng_mode == "text" and us:
         q = Quantity(val, text_of(us), abse=err)
         want = {uid(*f): Q(e[0], e[1]) for f, e in us}
@@ -368,21 +394,24 @@ def run_impl(case):
                      "e": case.get("le"), "u": [[uid(*f), e[0], e[1]] for f, e in case["lu"]]}}
         req["env"] = env_rows([u[0] for u in req["l"]["u"]])
         try:
-            q, _ = build("dict", case["lv"], case.get("le"), case["lu"])
-            imp = observe(q)
-            if not (finite(imp["v"]) and finite(imp["e"])):
-                imp = "nonfinite"
+            keep = []
+            q, _ = build("dict", case["lv"], case.get("le"), case["lu"], case.get("lform"), case.get("ldtype"), keep)
+            poke(case, keep)
+            imp = mark_nonfinite(observe(q))
         except (ZeroDivisionError, OverflowError, FloatingPointError):
             imp = "nonfinite"
         except Exception:
             imp = "err"
         return req, imp
-    l, how_l = build(case.get("mode", "dict"), case["lv"], case.get("le"), case.get("lu"))
+    keep = []
+    l, how_l = build(case.get("mode", "dict"), case["lv"], case.get("le"), case.get("lu"),
+                     case.get("lform"), case.get("ldtype"), keep)
     r = None
     if case.get("same"):
         r = l                      # the SAME object on both sides (a op a)
     elif "rv" in case:
-        r, _ = build(case.get("mode", "dict"), case["rv"], case.get("re"), case.get("ru"))
+        r, _ = build(case.get("mode", "dict"), case["rv"], case.get("re"), case.get("ru"),
+                     case.get("rform"), case.get("rdtype"), keep)
     req = {"k": "qty", "op": op.split("_")[0]}
 
     def operand(q, v, us):
@@ -401,6 +430,7 @@ def run_impl(case):
         req["t"] = [[uid(*f), e[0], e[1]] for f, e in case["tu"]]
         ids += [t[0] for t in req["t"]]
     req["env"] = env_rows(ids)
+    poke(case, keep)       # the states above were read before: a quantity must not be a view of the caller's array
     try:
         if op == "add":
             res = lo + ro
@@ -415,8 +445,23 @@ def run_impl(case):
         elif op == "state":
             res = lo
         elif op == "to":
-            from scinumtools.units import BaseUnits
-            res = lo.to(BaseUnits(tgt))
+            from scinumtools.units import BaseUnits, Quantity, Unit
+            tform = case.get("tform", "baseunits")
+            if tform == "quantity":
+                # a reference quantity: the value in multiples of it
+                t = Quantity(case["tm"], dict(tgt), abse=case.get("te"))
+                req["op"], req["r"] = "toq", state(t)
+                res = lo.to(t)
+            elif tform == "unit":
+                t = getattr(Unit(), text_of(case["tu"]))
+                req["op"], req["r"] = "toq", state(t)
+                res = lo.to(t)
+            elif tform == "dict":
+                res = lo.to(dict(tgt))
+            elif tform == "text":
+                res = lo.to(text_of(case["tu"]))
+            else:
+                res = lo.to(BaseUnits(tgt))
         elif op.startswith("pow"):
             n, d = case["p"]
             if op == "pow_int":
@@ -432,9 +477,7 @@ def run_impl(case):
                 res = lo ** x
         else:
             raise ValueError(op)
-        imp = observe(res)
-        if not (finite(imp["v"]) and finite(imp["e"])):
-            imp = "nonfinite"
+        imp = mark_nonfinite(observe(res))
     except (ZeroDivisionError, OverflowError, FloatingPointError):
         imp = "err" if op == "pow_pair" and case["p"][1] == 0 else "nonfinite"
     except Exception:
@@ -443,6 +486,29 @@ def run_impl(case):
         n, d = case["p"]
         req["p"] = [n, 1] if op == "pow_int" else ([n, d] if op == "pow_pair" else float_to_frac(n / d))
     return req, imp
+
+
+def poke(case, keep):
+    """modify the caller's arrays after the quantities were built from them"""
+    if case.get("poke"):
+        for a in keep:
+            a[0] = a[0] + 1 if a.dtype.kind != "u" else a[0] - 1
+
+
+def mark_nonfinite(obs):
+    if not (finite(obs["v"]) and finite(obs["e"])):
+        obs["nonfinite"] = True
+    return obs
+
+
+def is_nonfinite(imp):
+    return imp == "nonfinite" or (isinstance(imp, dict) and imp.get("nonfinite"))
+
+
+def model_is_sane(mod, rows):
+    """the model's answer is a finite result well inside the float range"""
+    return isinstance(mod, dict) and finite(mod.get("v")) and finite(mod.get("e")) and \
+        not out_of_range(mod, None, None, rows)
 
 
 def scale_for(case, req):
@@ -523,6 +589,8 @@ def gen_case(rng):
         c = {"op": "neg", "lv": gen_value(rng), "lu": gen_units(rng)}
     elif r < 0.86:
         c = gen_ctor(rng)
+    elif r < 0.90:
+        return gen_typed_case(rng)
     else:                                          # powers
         kind = rng.choice(["pow_int", "pow_pair", "pow_float", "pow_float"])
         d = 1 if kind == "pow_int" else rng.choice([1, 2, 2, 3, 4, 5, 6])
@@ -542,6 +610,54 @@ def gen_case(rng):
             c["lv"] = 2.0
             c["le"] = gen_err(rng, c["lv"]) if c["le"] is not None else None
         c.update({"same": True, "rv": c["lv"], "ru": c["lu"], "re": c["le"]})
+    return c
+
+
+def gen_typed_units(rng, form):
+    base = [s for s in DIMS]
+    us, seen = [], set()
+    for _ in range(rng.choice([1, 1, 2])):
+        s = rng.choice(base)
+        pr = dict(unit_pool()[0])[s]
+        p = rng.choice(pr) if (form != "dimlist" and pr and rng.random() < 0.5) else ""
+        if uid(p, s) in seen or s in [x[0][1] for x in us]:
+            continue
+        seen.add(uid(p, s))
+        us.append(((p, s), rng.choice([(1, 1), (1, 1), (2, 1), (-1, 1), (1, 2)])))
+    return us
+
+
+def gen_typed_case(rng):
+    """ndarray magnitudes of integer / float32 dtypes, units handed over in every form, operations whose
+    results leave the range of the integer dtype"""
+    form = rng.choice(["dict", "baseunits", "dimlist", "none", "text", "dict", "baseunits"])
+    dt, vals = rng.choice(TYPED_ARRAYS)
+    lu = [] if form == "none" else gen_typed_units(rng, form)
+    r = rng.random()
+    c = {"lv": list(vals), "lu": lu, "lform": form, "ldtype": dt, "mode": "dict", "le": None}
+    if r < 0.45:
+        kind = rng.choice(["pow_int", "pow_int", "pow_pair", "pow_float"])
+        n = rng.choice([7, 7, -1, -3, 2, 5, 9, -2])
+        if min(vals) < 0 and kind == "pow_float":
+            kind = "pow_int"
+        c.update({"op": kind, "p": [n, 1]})
+    elif r < 0.9:
+        op = rng.choice(["mul", "mul", "mul", "div", "add", "sub"])
+        if rng.random() < 0.4:
+            c.update({"op": op, "same": True, "rv": list(vals), "ru": lu, "re": None})
+        else:
+            dt2, vals2 = rng.choice([t for t in TYPED_ARRAYS if len(t[1]) == len(vals)])
+            form2 = rng.choice(["dict", "baseunits", "text"])
+            ru = (variant(rng, lu) or lu) if (op in ("add", "sub") or rng.random() < 0.5) else gen_typed_units(rng, form2)
+            c.update({"op": op, "rv": list(vals2), "ru": ru, "rform": form2, "rdtype": dt2, "re": None})
+    elif r < 0.95:
+        c.update({"op": "neg"})
+    else:
+        c.update({"op": "new"})
+    if rng.random() < 0.4:
+        c["poke"] = True
+    if rng.random() < 0.2:
+        c["le"] = 0.125
     return c
 
 
@@ -594,6 +710,17 @@ CORPUS = [
     {"op": "mul", "lv": 12.0, "lu": U(("c", "m", 1, 1)), "le": 0.2, "same": True, "rv": 12.0, "ru": U(("c", "m", 1, 1)), "re": 0.2},
     {"op": "div", "lv": 3.0, "lu": U(("k", "m", 1, 1)), "same": True, "rv": 3.0, "ru": U(("k", "m", 1, 1))},
     {"op": "sub", "lv": [1.0, 2.0], "lu": U(("", "s", 1, 1)), "le": 0.1, "same": True, "rv": [1.0, 2.0], "ru": U(("", "s", 1, 1)), "re": 0.1},
+    # ndarray magnitudes of integer dtypes, units in every form; the caller's array is modified afterwards
+    {"op": "pow_int", "lv": [1000, 2, 30], "lu": U(("k", "m", 1, 1)), "lform": "dict", "ldtype": "int64", "p": [7, 1]},
+    {"op": "pow_int", "lv": [3, 4], "lu": U(("", "m", 1, 1), ("", "s", -1, 1)), "lform": "dimlist", "ldtype": "int64", "p": [-2, 1]},
+    {"op": "mul", "lv": [4000000000, 5, 6], "lu": U(("c", "m", 1, 1)), "lform": "baseunits", "ldtype": "int64", "same": True,
+     "rv": [4000000000, 5, 6], "ru": U(("c", "m", 1, 1))},
+    {"op": "pow_int", "lv": [1000, 2000, 3000], "lu": [], "lform": "none", "ldtype": "int64", "p": [7, 1]},
+    {"op": "neg", "lv": [200, 3, 100], "lu": U(("", "g", 1, 1)), "lform": "dict", "ldtype": "uint8", "poke": True},
+    {"op": "add", "lv": [1, 2, 3], "lu": U(("k", "m", 1, 1)), "lform": "baseunits", "ldtype": "int32", "poke": True,
+     "rv": [0.5, 1.25, 3.0], "ru": U(("", "m", 1, 1)), "rform": "dict", "rdtype": "float32"},
+    {"op": "mul", "lv": [2.5, -4.0, 1000.0], "lu": U(("", "s", 1, 1)), "lform": "dict", "ldtype": "float64", "poke": True,
+     "rv": [1, 2, 3], "ru": U(("", "s", -1, 1)), "rform": "text", "rdtype": "int32"},
     # constructor with units whose dimensions cancel
     {"op": "new", "lv": 4.0, "lu": U(("c", "m", 1, 1), ("", "m", -1, 1)), "le": 0.1},
     {"op": "new", "lv": 3.0, "lu": U(("k", "Hz", 1, 1), ("", "s", 1, 1), ("", "%", 1, 1))},
@@ -604,12 +731,17 @@ def judge(ctx, case, req, imp, ans, prop="C06"):
     """compare one case; returns True if judged"""
     op = case["op"]
     ctx.count("op." + op)
-    if imp == "nonfinite":
-        ctx.count("nonfinite")
-        return False
     if "ok" not in ans:
         ctx.disagreement(op, case, "driver error %s" % (ans,))
         return True
+    if is_nonfinite(imp):
+        if model_is_sane(ans["ok"]["model"], req["env"]):
+            got = "an exception (ZeroDivision/Overflow)" if imp == "nonfinite" else "value %s error %s" % (imp["v"], imp["e"])
+            ctx.violation("%s:notanumber" % op, "Quantity %s gives %s where the result is the ordinary number %s (operands %s)" %
+                          (op, got, ans["ok"]["model"]["v"], describe(case)), {"case": case, "impl": imp})
+            return True
+        ctx.count("nonfinite")
+        return False
     if op == "pow_float" and req.get("p_intended") and Q(*req["p"]) != Q(*req["p_intended"]):
         ctx.count("float-not-denoting-n/d")
         return False
@@ -625,6 +757,11 @@ def judge(ctx, case, req, imp, ans, prop="C06"):
         ctx.count("with-error")
     if isinstance(case["lv"], list) or isinstance(case.get("rv"), list):
         ctx.count("array")
+    if case.get("ldtype") or case.get("rdtype"):
+        ctx.count("ndarray-dtype." + (case.get("ldtype") or case.get("rdtype")))
+        ctx.count("units-form." + str(case.get("lform")))
+    if case.get("poke"):
+        ctx.count("caller-array-modified-after-construction")
     if case.get("same"):
         ctx.count("same-object")
     bad = compare_spec(imp, spec, req["env"], scale)
@@ -647,10 +784,13 @@ def out_of_range(imp, mod, spec, rows):
                 x = o.get(k)
                 vals += x if isinstance(x, list) else [x]
     if isinstance(imp, dict):
-        b = base_of(imp, rows)
-        vals += b if isinstance(b, list) else [b]
-        f = {r[0]: r[3] for r in rows}
-        fs = [f[u] ** (n / d) for u, n, d in imp["u"]]
+        try:
+            b = base_of(imp, rows)
+            vals += b if isinstance(b, list) else [b]
+            f = {r[0]: r[3] for r in rows}
+            fs = [f[u] ** (n / d) for u, n, d in imp["u"]]
+        except (OverflowError, ZeroDivisionError, TypeError):
+            return True
         if any(x == 0 for x in fs):
             return True
         vals += fs
@@ -663,15 +803,21 @@ def out_of_range(imp, mod, spec, rows):
 
 
 def describe(case):
-    def one(v, u, e):
+    def one(v, u, e, dt=None, form=None):
+        if dt:
+            v = "np.array(%r, dtype=%s)" % (v, dt)
+            if u is not None:
+                return "%s%s units(%s)='%s'" % (v, "" if e is None else "±%g" % e, form, text_of(u))
         if u is None:
             return repr(v)
         return "%r%s '%s'" % (v, "" if e is None else "±%g" % e, text_of(u))
-    s = one(case["lv"], case.get("lu"), case.get("le"))
+    s = one(case["lv"], case.get("lu"), case.get("le"), case.get("ldtype"), case.get("lform"))
+    if case.get("poke"):
+        s += " [caller's array modified after construction]"
     if case.get("same"):
         s += " , the same object"
     elif "rv" in case:
-        s += " , " + one(case["rv"], case.get("ru"), case.get("re"))
+        s += " , " + one(case["rv"], case.get("ru"), case.get("re"), case.get("rdtype"), case.get("rform"))
     if "p" in case:
         s += " ** %s/%s as %s" % (case["p"][0], case["p"][1], case["op"][4:])
     return s
